@@ -51,7 +51,16 @@ ASSUMPTIONS = [
     "'whatever transient would-block or timeout conditions' is proved for sockets (C05_transients_socket) and, for "
     "pipes, only for scripts of data events (C05_pipe_partial); safety (prefix, then EOFError + closed) holds for both. "
     "A real pipe reports EAGAIN only if O_NONBLOCK is set on its read end by the application or through a shared open "
-    "file description; rpyc creates its pipes blocking and never sets it (real-pipe demonstration in the evidence)",
+    "file description; rpyc creates its pipes blocking and never sets it (real-pipe demonstration in the evidence). "
+    "Same class, same finding: TLS streams (ssl-wrapped sockets under SocketStream) are NOT modelled; on a "
+    "non-blocking TLS socket a would-block is reported as ssl.SSLWantReadError (an OSError with errno 2, not EAGAIN), "
+    "which is not in retry_errnos, so it is fatal as well (probed on every run over an anonymous-DH TLS session, "
+    "no certificates; text in the evidence). Noted, not claimed: SocketStream.ssl_connect calls ssl.wrap_socket, which "
+    "does not exist on Python 3.12 (environmental; test_ssl fails in the baseline for it); the 3 s connect timeout "
+    "SocketStream.connect leaves on the socket makes a send blocked longer than that fatal (write treats a timeout as "
+    "fatal: conforming to 'EOFError + closed'); an ASYNCHRONOUS exception (KeyboardInterrupt) raised inside recv() "
+    "leaves an open stream in mid-frame, so the next recv() is out of step - outside the statement (transport "
+    "behaviour only) and outside the model",
     "'EOFError + closed' is claimed for failures met by read/write (recv/send). EXCLUDED: (a) a failure reported by "
     "Stream.poll itself - a failing poll() call other than EINTR or a descriptor register() refuses is re-raised as "
     "select_error with the stream left open; SocketStream.fileno re-raises a non-EBADF socket.error after closing "
@@ -75,7 +84,7 @@ EXPLANATION = (
     "next n bytes, or EOFError+closed, or is still blocked; recvAll_frames: every failure-free fragmentation (any "
     "split/coalescing, timeouts/EAGAIN anywhere) delivers exactly the packets sent; recvAll_prefix: under EVERY script "
     "and for ANY prefix of the sent stream only whole packets in order are returned, then EOFError+closed; writeAll / "
-    "sendAll_prefix: the transport has accepted a prefix of the frames, all of them iff send returned, else "
+    "sendAll_prefix: the transport has accepted a prefix of the frames, all of them whenever send returned (the converse is not stated), else "
     "EOFError+closed; transfer_exact / transfer_safe: both ends composed. zlib enters only through its round-trip law. "
     "Duplex layer (one stream, send/recv/poll/close in any order, failing close()): every packet recv returns is the "
     "one recvPacket returns (duplex_recv_is_recvPacket); send and poll never touch the incoming stream; poll's "
@@ -1227,7 +1236,9 @@ def correspondence(ctx):
     c.extra["scripts_run"] = n
     c.extra["kernel_probes"] = wire_kernel.probe_dead_peer_poll()
     lost, text = wire_kernel.probe_pipe_wouldblock()
+    _probed, _tls_lost, tls_text = wire_kernel.probe_tls_wouldblock()
     c.extra["observations_outside_the_claim"] = [
+        "non-blocking TLS socket under SocketStream (TLS is not modelled; same class as the pipe finding): " + tls_text,
         "PipeStream on a real pipe whose read end is O_NONBLOCK (set by the application or by a process sharing the "
         "open file description; rpyc itself never sets it): " + text,
         "the descriptor's own close() raising inside the failure path of read/write (FakeSocket/FakePipe close_fault): "
@@ -1502,4 +1513,6 @@ def known_probes(ctx):
     if PIPE_WOULDBLOCK not in getattr(ctx, "known_signatures", ()):
         return []
     lost, text = wire_kernel.probe_pipe_wouldblock()
-    return [(PIPE_WOULDBLOCK, lost, "a would-block reported by os.read on a pipe is fatal: " + text)]
+    probed, tls_lost, tls_text = wire_kernel.probe_tls_wouldblock()
+    extra = "; likewise SSLWantReadError on a non-blocking TLS socket: " + tls_text if probed and tls_lost else ""
+    return [(PIPE_WOULDBLOCK, lost, "a would-block reported by os.read on a pipe is fatal: " + text + extra)]
